@@ -5,6 +5,7 @@ Line-protocol driver for the C02 interleaving model (Model/VersionSet.lean).
   acquire <r>            reader r takes a snapshot
   getr <r> <f>           snapshot.GetReader(f)
   find <r> <k>           snapshot.FindReaders(k) + Get(k) on every reader
+  findfail <r> <k> <f>   snapshot.FindReaders(k) while the open of table f fails once (injected fault)
   load <r> <k>           snapshot.Load(k)
   close <r>              snapshot.Close() up to the yield after ref.Dec
   run r<r> | run j<j> [+j<k> ..]   continue a closing reader / a job up to its next park point
@@ -33,7 +34,7 @@ structure D where
 
 def codeCfg0 : Cfg :=
   { recheck := Generated.C02.removeVersionRechecksRef, cloneLocked := Generated.C02.commitCloneUnderLock,
-    allocLocked := Generated.C02.allocUnderCommitLock }
+    allocLocked := Generated.C02.allocUnderCommitLock, findErrReleases := Generated.C02.findErrReleases }
 
 def D.empty : D := { cfg := codeCfg0, st := St.init 0 0, readers := [], ok := false }
 
@@ -115,7 +116,8 @@ def step' (d : D) (ws : List String) : D × String :=
     match rest.mapM String.toNat? with
     | some [v0, f0, th, ro] =>
       answer { cfg := { recheck := Generated.C02.removeVersionRechecksRef, cloneLocked := Generated.C02.commitCloneUnderLock,
-                        allocLocked := Generated.C02.allocUnderCommitLock, threshold := th, rollupOn := ro == 1 },
+                        allocLocked := Generated.C02.allocUnderCommitLock, findErrReleases := Generated.C02.findErrReleases,
+                        threshold := th, rollupOn := ro == 1 },
                st := St.init v0 f0, readers := [], ok := true } "ok"
     | some [v0, f0, th, ro, rc, cl, al] =>
       answer { cfg := { recheck := rc == 1, cloneLocked := cl == 1, allocLocked := al == 1, threshold := th, rollupOn := ro == 1 },
@@ -148,6 +150,26 @@ def step' (d : D) (ws : List String) : D × String :=
     match r.toNat?, k.toNat? with
     | some r, some k => doRead d r k false
     | _, _ => (d, "bad-op")
+  | ["findfail", r, k, f] =>
+    -- FindReaders(k) where opening table f (the only covering table of its level, not mapped) fails:
+    -- the covering tables of the lower levels were opened before it (levels are visited in order)
+    match r.toNat?, k.toNat?, f.toNat? with
+    | some r, some k, some f =>
+      match sidOf d r with
+      | none => (d, "bad-op")
+      | some i =>
+        let cov := findFiles (d.st.ver (d.st.snap i).ver) k
+        match cov.find? (fun m => m.no == f) with
+        | none => (d, "bad-op")
+        | some mf =>
+          if readerSnap d.st i && (d.st.snap i).st = .opened && (d.st.cref f).isNone then
+            let before := (cov.filter (fun m => m.level < mf.level)).map (·.no)
+            let (s1, _) := readFiles d.st i true before
+            let s2 := if d.cfg.findErrReleases then
+                (step d.cfg s1 (.findErrRelease i before)).getD s1 else s1
+            answer { d with st := s2 } "err"
+          else (d, "bad-op")
+    | _, _, _ => (d, "bad-op")
   | ["close", r] =>
     match r.toNat? with
     | some r =>
